@@ -5,14 +5,16 @@ META = dict(
     technique='CBMC code contracts (DFCC) on mechanically extracted parse_entries functions: Parameters::get* are contract stubs answering arbitrary schema-valid values; postcondition "exception pending or representation invariant established"',
     level_text='Partial. Proof for every option string the parameter file may contain: Spherical::parse_entries either raises an exception or '
                'sets the depth-method enum to the enumerator of the recognised option - no value leaves the field uninitialised. Proof for every '
-               'list length within the vector bound (3 quick / 8 thorough) and all values: Plume::parse_entries either raises an exception or leaves one cross-section depth, '
+               'list length within the vector bound (3 quick / 5 thorough) and all values: Plume::parse_entries either raises an exception or leaves one cross-section depth, '
                'semi-major axis, eccentricity and rotation angle per coordinate (what Plume::properties indexes by), and terminates for every length incl. 0; '
-               'PlumeModels::Temperature::Gaussian::parse_entries either raises an exception or leaves three per-depth lists of equal length.',
+               'PlumeModels::Temperature::Gaussian::parse_entries either raises an exception or leaves three per-depth lists of equal length; '
+               'OceanicPlateModels::Temperature::HalfSpaceModel/PlateModel::parse_entries either raise an exception or leave one spreading velocity per ridge point '
+               '(<= 3 ridges of <= 2 points) and read the value table only inside its bounds.',
     level_note='Trusted: translator, shims (std::string = handle determined by content for literals, arbitrary for file values), CBMC; the verified configuration is '
                '-DNDEBUG (the one the pinned suite builds): WBAssert is compiled out. Parameters::get*/get_vector are contract stubs answering any value/list. Bytes -> JSON -> '
                'schema validation (rapidjson, Parameters::initialize) and every other parse_entries function are not under contract.',
-    scope='CoordinateSystems::Spherical::parse_entries, Features::Plume::parse_entries, Features::PlumeModels::Temperature::Gaussian::parse_entries',
-    not_covered=['JSON parsing and schema validation', 'length consistency of list-valued parameters of other features (oceanic plate model tables, slab/fault segment tables)',
+    scope='CoordinateSystems::Spherical::parse_entries, Features::Plume::parse_entries, Features::PlumeModels::Temperature::Gaussian::parse_entries, Features::OceanicPlateModels::Temperature::HalfSpaceModel::parse_entries, ...::PlateModel::parse_entries',
+    not_covered=['JSON parsing and schema validation', 'length consistency of list-valued parameters of other features (mass conserving slab model tables, slab/fault segment tables)',
                  'formatting/comment/key-order independence', 'uninitialised reads other than the depth-method enum field', 'the Types::* declaration layer (schema bounds)'],
     enforced_elsewhere={},
 )
@@ -38,7 +40,7 @@ UNITS.append(dict(
              'Parameters_get__string__ret_basic_string_char', 'Parameters_get__string__ret_double', 'Parameters_get_vector__string__ret_double',
              ] +
             ['Parameters_get_unique_pointers__ret_Features_PlumeModels_%s_Interface' % k for k in _KINDS],
-    outline_fp='all', defines={'WB_VEC_CAP': 2, 'WB_CAP_vec_double': 3}, defines_thorough={'WB_CAP_vec_double': 8, 'WB_CAP_vec_Point2': 8},
+    outline_fp='all', defines={'WB_VEC_CAP': 2, 'WB_CAP_vec_double': 3}, defines_thorough={'WB_CAP_vec_double': 5, 'WB_CAP_vec_Point2': 5}, timeout_thorough=1800,
     expect_fail=['REACHABILITY-GUARD'], object_bits=12,
     loops={
         # the ascending-order loop (debug-only body): terminates for every list length
@@ -53,6 +55,32 @@ UNITS.append(dict(
     targets=[dict(tu='source/world_builder/features/plume_models/temperature/gaussian.cc', qual='WorldBuilder::Features::PlumeModels::Temperature::Gaussian::parse_entries')],
     stub_prefixes=['Parameters_'], replace=['Parameters_get__string__ret_basic_string_char', 'Parameters_get_vector__string__ret_double'],
     defines={'WB_VEC_CAP': 2, 'WB_CAP_vec_double': 3}, defines_thorough={'WB_CAP_vec_double': 8}, expect_fail=['REACHABILITY-GUARD']))
+
+for _model, _file in [('HalfSpaceModel', 'half_space_model'), ('PlateModel', 'plate_model')]:
+    _fn = 'Features_OceanicPlateModels_Temperature_%s_parse_entries' % _model
+    UNITS.append(dict(
+        name='%s_parse' % _file, enforce=_fn, contracts='c12_ridge_tables.c', harness='h_ridge_tables',
+        targets=[dict(tu='source/world_builder/features/oceanic_plate_models/temperature/%s.cc' % _file,
+                      qual='WorldBuilder::Features::OceanicPlateModels::Temperature::%s::parse_entries' % _model)],
+        stub_prefixes=['Parameters_', 'Objects_Surface_'], stub=['CoordinateSystems_Interface_natural_coordinate_system'],
+        nothrow=['CoordinateSystems_Interface_natural_coordinate_system'],
+        replace=['Parameters_get_value_at_array', 'Parameters_get_vector__string__ret_vector_Point_2'],
+        outline_fp='all', unwind_complete=3, defines={'MODEL': _model, 'WB_VEC_CAP': 2, 'WB_CAP_vec_double': 4, 'WB_CAP_vec_vec_Point2': 3, 'WB_CAP_vec_vec_double': 3}, expect_fail=['REACHABILITY-GUARD'], timeout=900, object_bits=12,
+        loops={
+            (_fn, 1): dict(contract='__CPROVER_assigns(wb_i1, wb_r1->data[0].data, wb_r1->data[1].data, wb_r1->data[2].data)\n'
+                                    '__CPROVER_loop_invariant(wb_i1 <= wb_r1->n && wb_r1 == &this_->mid_oceanic_ridges)\n__CPROVER_decreases(wb_r1->n - wb_i1)'),
+            (_fn, 2): dict(contract='__CPROVER_assigns(wb_i2, wb_r2->data)\n'
+                                    '__CPROVER_loop_invariant(wb_i2 <= wb_r2->n && wb_r2 == ridge_coordinates)\n__CPROVER_decreases(wb_r2->n - wb_i2)'),
+            (_fn, 3): dict(contract='__CPROVER_assigns(wb_i3, n_ridge_points)\n'
+                                    '__CPROVER_loop_invariant(wb_i3 <= wb_r3->n && wb_r3 == &this_->mid_oceanic_ridges && n_ridge_points == PRE(wb_i3))\n'
+                                    '__CPROVER_decreases(wb_r3->n - wb_i3)'),
+            (_fn, 4): dict(contract='__CPROVER_assigns(wb_i4, ridge_point_index, this_->spreading_velocities_at_each_ridge_point, wb_thrown)\n'
+                                    '__CPROVER_loop_invariant(wb_i4 <= wb_r4->n && wb_r4 == &this_->mid_oceanic_ridges && SV.n == wb_i4 && (size_t)ridge_point_index == PRE(wb_i4))\n'
+                                    '__CPROVER_loop_invariant(g_r < wb_i4 ==> SV.data[g_r].n == g_ridges.data[g_r].n)\n'
+                                    '__CPROVER_decreases(wb_r4->n - wb_i4)'),
+            (_fn, 5): dict(contract='__CPROVER_assigns(index_y, ridge_point_index, spreading_rates_for_ridge)\n'
+                                    '__CPROVER_loop_invariant((unsigned long)index_y <= mid_oceanic_ridge->n && spreading_rates_for_ridge.n == (size_t)index_y && (size_t)ridge_point_index == PRE(wb_i4) + (size_t)index_y)\n'
+                                    '__CPROVER_decreases(mid_oceanic_ridge->n - (unsigned long)index_y)')}))
 
 SPH = '{"version":"1.1", "coordinate system":{"model":"spherical", "depth method":"%s"}, "features":[]}'
 
@@ -126,8 +154,39 @@ def oracle_gaussian_lists(work):
     return dict(status='holds', detail='gaussian models with 1, 2 or 4 entries in one of the three lists are rejected by an exception')
 
 
+def oracle_ridge_tables(work, model='half space model'):
+    """an oceanic plate temperature model whose spreading-velocity table has several values but not one per ridge point is refused"""
+    import oracle
+
+    def world(sv, ridges):
+        return json.dumps({"version": "1.1", "features": [
+            {"model": "oceanic plate", "name": "O", "max depth": 100e3, "coordinates": [[0, 0], [1000e3, 0], [1000e3, 1000e3], [0, 1000e3]],
+             "temperature models": [{"model": model, "min depth": 0, "max depth": 100e3, "top temperature": 300, "bottom temperature": 1600,
+                                     "spreading velocity": sv, "ridge coordinates": ridges}]}]})
+    r3 = [[[100e3, -1e3], [100e3, 500e3], [100e3, 1001e3]]]
+    r22 = [[[100e3, -1e3], [100e3, 500e3]], [[200e3, 500e3], [200e3, 1001e3]]]
+    for sv, ridges in [(0.05, r3), ([[0, [[0.01, 0.02, 0.03]]]], r3), ([[0, [[0.01, 0.02], [0.03, 0.04]]]], r22)]:
+        q = oracle.Q(world(sv, ridges), work, name='ridge_ok')
+        try:
+            if q.construct_error:
+                return dict(status='error', detail='consistent %s rejected: %s' % (model, q.construct_error))
+        finally:
+            q.close()
+    for sv, ridges, what in [([[0, [[0.01, 0.02]]]], r3, '2 spreading velocities for a ridge of 3 points'),
+                             ([[0, [[0.01, 0.02], [0.03]]]], r22, '3 spreading velocities for 2 ridges of 2 points')]:
+        q = oracle.Q(world(sv, ridges), work, name='ridge_bad')
+        try:
+            if not q.construct_error:
+                return dict(status='violated', input={'model': model, 'spreading velocity': sv, 'ridge coordinates': ridges},
+                            detail='%s with %s is accepted without an exception (parse_entries indexes the value list by ridge point: out-of-bounds read)' % (model, what))
+        finally:
+            q.close()
+    return dict(status='holds', detail='%s: spreading-velocity tables that do not match the ridge points are rejected by an exception' % model)
+
+
 def native_oracle(witness, work, search_seed=None):
-    subs = dict(spherical_parse=oracle_depth_method, plume_parse=oracle_plume_lists, gaussian_parse=oracle_gaussian_lists)
+    subs = dict(spherical_parse=oracle_depth_method, plume_parse=oracle_plume_lists, gaussian_parse=oracle_gaussian_lists,
+                half_space_model_parse=lambda w: oracle_ridge_tables(w, 'half space model'), plate_model_parse=lambda w: oracle_ridge_tables(w, 'plate model'))
     order = [witness['unit']] if witness.get('unit') in subs else list(subs)
     details = []
     for u in order:
